@@ -121,7 +121,7 @@ func init() {
 			return 1 + len(refActs)*c18Batches + 8
 		},
 		Run:      runC18,
-		Required: []string{"scalar.concurrent_evaluations", "registry.extensions", "registry.codes", "scalar.evaluations", "module.evaluations", "module.all_negative_below_minint64", "scalar.at_breakpoint"},
+		Required: []string{"scalar.concurrent_evaluations", "registry.extensions", "registry.codes", "scalar.evaluations", "module.evaluations", "module.all_negative_below_minint64", "scalar.at_breakpoint", "module.results_held_across_a_later_activation"},
 	})
 }
 
@@ -282,9 +282,16 @@ func c18Scalar(c *Ctx, ra *refAct, xs []float64) {
 	}
 }
 
+type c18Held struct {
+	out  []float64
+	want float64
+	name string
+}
+
 func c18Modules(c *Ctx, n int) {
 	r := c.G
 	factory := neatmath.NodeActivators
+	var held []c18Held
 	for i := 0; i < n; i++ {
 		k := 1 + r.Intn(8)
 		if r.Intn(200) == 0 {
@@ -331,6 +338,22 @@ func c18Modules(c *Ctx, n int) {
 			c.Count("module.evaluations", 1)
 			name := refModuleNames[typ]
 			d := map[string]interface{}{"key": name, "inputs": fmt.Sprint(v)}
+			// results a caller still holds: what an earlier activation returned is a value of its own, later activations (of
+			// this or another module type) must not write into it
+			for _, h := range held {
+				c.Count("module.results_held_across_a_later_activation", 1)
+				if len(h.out) != 1 || (fbits(h.out[0]) != fbits(h.want) && !(math.IsNaN(h.out[0]) && math.IsNaN(h.want))) {
+					c.Violate("module-result-overwritten", map[string]interface{}{"key": h.name + "/held", "inputs": fmt.Sprint(v)},
+						"the result %s returned earlier (%v) reads %v after a later %s activation", h.name, h.want, h.out, name)
+					return
+				}
+			}
+			if err == nil && len(out) == 1 {
+				held = append(held, c18Held{out, want, name})
+				if len(held) > 4 {
+					held = held[1:]
+				}
+			}
 			if err != nil {
 				c.Violate("module-error", d, "%s failed: %v", name, err)
 				return
